@@ -384,7 +384,18 @@ pub fn exec(c: &Case) -> Outcome {
     // C09: the closed id becomes available again, the connection still opens channels
     let mut reopen: Option<Result<u16, String>> = None;
     let mut after_calls: Vec<String> = Vec::new();
-    let close_was_sent = sess.broker.call(|b, _| b.close_sent).unwrap_or(false);
+    // the programs are over: a close that has not been sent by now is called off, so that it
+    // cannot cross the client's own Connection.Close below (the client rightly ignores a
+    // Channel.Close that arrives after it has begun to close the connection)
+    let close_was_sent = sess
+        .broker
+        .call(|b, _| {
+            if !b.close_sent {
+                b.close = None;
+            }
+            b.close_sent
+        })
+        .unwrap_or(false);
     if let (Some(ci), Some(spec), true) = (close_ch, c.close.as_ref(), close_was_sent) {
         // later calls on the closed channel keep failing
         if let Some(ch) = back[ci].as_ref() {
@@ -766,6 +777,242 @@ pub fn parts_c01() -> Vec<Box<dyn PartDyn>> {
     })]
 }
 
+// ---------------------------------------------------------------------------------------------
+// C09 part `crossing`: the request in flight on n when the server closes n is Channel::close itself
+
+#[derive(Clone, Debug, Serialize, Deserialize, PartialEq)]
+pub struct XCase {
+    /// number of channels (2-4); channel index `target` is closed by its owner and by the server
+    pub channels: u8,
+    pub target: u8,
+    /// synchronous calls each other channel makes while this happens
+    pub calls: u8,
+    /// synchronous calls the target makes before it closes
+    pub before: u8,
+    pub code: u16,
+    pub text: String,
+    /// how the server's Close and its CloseOk for the client's Close travel: 0 = one segment,
+    /// 1 = two segments, 2 = CloseOk only after the client's CloseOk has arrived
+    pub timing: u8,
+    pub salt: u64,
+}
+
+/// Auto-replying broker that treats the client's Channel.Close on `target` as a collision: it
+/// "had just sent" its own Close, so the client sees Channel.Close(target, code, text) and then
+/// the CloseOk for its own Close (AMQP 0-9-1 close-collision rule; RabbitMQ does this).
+struct CrossBroker {
+    inner: crate::broker::AutoBroker,
+    target: u16,
+    code: u16,
+    text: String,
+    timing: u8,
+    collided: bool,
+    owe_close_ok: bool,
+}
+
+impl Responder for CrossBroker {
+    fn on_frame(&mut self, io: &mut BrokerIo, frame: &AMQPFrame) {
+        match frame {
+            AMQPFrame::Method(ch, AMQPClass::Channel(Chan::Close(_))) if *ch == self.target && !self.collided => {
+                self.collided = true;
+                let close = AMQPFrame::Method(
+                    *ch,
+                    AMQPClass::Channel(Chan::Close(channel::Close {
+                        reply_code: self.code,
+                        reply_text: self.text.clone(),
+                        class_id: 0,
+                        method_id: 0,
+                    })),
+                );
+                let ok = AMQPFrame::Method(*ch, AMQPClass::Channel(Chan::CloseOk(channel::CloseOk {})));
+                match self.timing % 3 {
+                    0 => io.send_glued(vec![close, ok]),
+                    1 => {
+                        io.send(close);
+                        io.send(ok);
+                    }
+                    _ => {
+                        io.send(close);
+                        self.owe_close_ok = true;
+                    }
+                }
+            }
+            _ => self.inner.on_frame(io, frame),
+        }
+    }
+    fn on_tick(&mut self, io: &mut BrokerIo) {
+        // (the broker core swallows the client's CloseOk for a channel we are closing and clears
+        // `closing_channels`; that is the moment the owed CloseOk goes out)
+        if self.owe_close_ok && !io.closing_channels.contains(&self.target) {
+            self.owe_close_ok = false;
+            io.send(AMQPFrame::Method(self.target, AMQPClass::Channel(Chan::CloseOk(channel::CloseOk {}))));
+        }
+        self.inner.on_tick(io)
+    }
+}
+
+pub fn exec_crossing(c: &XCase) -> Outcome {
+    let nch = (c.channels as usize).clamp(2, 4);
+    let target = c.target as usize % nch;
+    let mut sess = open_session(
+        &ClientCfg::default(),
+        ServerCfg::default(),
+        vec![],
+        CrossBroker {
+            inner: crate::broker::AutoBroker::new(c.salt),
+            target: (target + 1) as u16,
+            code: c.code,
+            text: c.text.clone(),
+            timing: c.timing,
+            collided: false,
+            owe_close_ok: false,
+        },
+    );
+    let mut conn = match sess.conn.take() {
+        Some(c) => c,
+        None => {
+            let _ = sess.broker.stop();
+            return Outcome {
+                inconclusive: Some(format!("open failed: {:?}", sess.open_error)),
+                ..Default::default()
+            };
+        }
+    };
+    let wire = sess.wire.clone();
+    let mut chans = Vec::new();
+    for i in 0..nch {
+        match conn.open_channel(Some((i + 1) as u16)) {
+            Ok(ch) => chans.push(ch),
+            Err(e) => {
+                let _ = sess.broker.stop();
+                return Outcome::fail("session-setup-failed", format!("{:?}", e));
+            }
+        }
+    }
+    let (tx, rx) = mpsc::channel::<(usize, Vec<String>, Option<String>)>();
+    for (i, ch) in chans.into_iter().enumerate() {
+        let tx = tx.clone();
+        let (calls, before) = (c.calls % 12 + 1, c.before % 4);
+        std::thread::spawn(move || {
+            let mut results = Vec::new();
+            if i == target {
+                for k in 0..before {
+                    results.push(format!("{:?}", ch.qos(0, k as u16, false)));
+                }
+                let r = ch.close();
+                let _ = tx.send((i, results, Some(format!("{:?}", r))));
+            } else {
+                for k in 0..calls {
+                    results.push(format!("{:?}", ch.qos(0, k as u16, false)));
+                }
+                // keep the channel open until the session is closed
+                std::mem::forget(ch);
+                let _ = tx.send((i, results, None));
+            }
+        });
+    }
+    let mut reports: Vec<Option<(Vec<String>, Option<String>)>> = vec![None; nch];
+    let deadline = Instant::now() + Duration::from_secs(10);
+    for _ in 0..nch {
+        match rx.recv_timeout(deadline.saturating_duration_since(Instant::now())) {
+            Ok((i, r, cl)) => reports[i] = Some((r, cl)),
+            Err(_) => {
+                wire.push_eof();
+                let _ = sess.broker.stop();
+                return Outcome::hang(
+                    "caller-not-released-by-crossing-close",
+                    format!("{:?}: threads finished: {:?}", c, reports.iter().map(|r| r.is_some()).collect::<Vec<_>>()),
+                );
+            }
+        }
+    }
+    // the id is free again and the connection is fine
+    let reopen = crate::session::timed(crate::session::CALL_TIMEOUT, "avh-c09-reopen", move || {
+        let r = conn.open_channel(Some((target + 1) as u16)).and_then(|ch| {
+            let r = ch.qos(0, 9, false);
+            std::mem::forget(ch);
+            r
+        });
+        (r, conn)
+    });
+    let (reopen, conn) = match reopen {
+        Some(x) => x,
+        None => {
+            wire.push_eof();
+            let _ = sess.broker.stop();
+            return Outcome::hang("reopen-hang", format!("{:?}", c));
+        }
+    };
+    let close = timed_close(conn);
+    let io = wire.io_thread();
+    let (b, _bio) = sess.broker.stop();
+    if let Some(t) = io {
+        let p = take_panics(t);
+        if !p.is_empty() {
+            return Outcome::fail("io-thread-panic", format!("{} at {}", p[0].message, p[0].location));
+        }
+    }
+    if !b.collided {
+        return Outcome::fail("client-close-never-sent", format!("{:?}", c));
+    }
+    let ctx = format!("{:?}", c);
+    let want_err = format!("Err(ServerClosedChannel {{ channel_id: {}, code: {}, message: {:?} }})", target + 1, c.code, c.text);
+    for (i, rep) in reports.iter().enumerate() {
+        let (results, closed) = rep.as_ref().unwrap();
+        if let Some(bad) = results.iter().find(|r| r.as_str() != "Ok(())") {
+            let sig = if i == target { "call-before-close-failed" } else { "other-channel-affected-by-crossing-close" };
+            return Outcome::fail(sig, format!("channel {}: {}\n{}", i + 1, bad, ctx));
+        }
+        if let Some(cl) = closed {
+            // the server's Close is what the pending close() meets; Ok would also be a serial outcome
+            if *cl != want_err && cl != "Ok(())" {
+                return Outcome::fail("crossing-close-wrong-result", format!("Channel::close returned {}, expected {} (or Ok)\n{}", cl, want_err, ctx));
+            }
+        }
+    }
+    if let Err(e) = reopen {
+        return Outcome::fail("closed-channel-id-not-reusable", format!("open_channel(Some({})) / call after the crossing close: {:?}\n{}", target + 1, e, ctx));
+    }
+    match close {
+        Some(Ok(())) => {}
+        Some(Err(e)) => return Outcome::fail("connection-failed", format!("Connection::close: {:?}\n{}", e, ctx)),
+        None => return Outcome::hang("close-hang", ctx),
+    }
+    // wire of the target: Open, calls, Close, exactly one CloseOk, then the re-opened channel
+    let d = crate::codec::decode_stream(&wire.out_snapshot());
+    let on_target: Vec<String> = d
+        .frames
+        .iter()
+        .filter(|(_, f)| crate::codec::frame_channel(f) == (target + 1) as u16)
+        .map(|(_, f)| brief(f))
+        .collect();
+    let n_close = on_target.iter().filter(|s| s.contains("Channel(Close(")).count();
+    let n_ok = on_target.iter().filter(|s| s.contains("Channel(CloseOk(")).count();
+    if n_close != 1 || n_ok != 1 {
+        return Outcome::fail("crossing-close-wire", format!("channel {} carries {} Close and {} CloseOk frames: {:?}\n{}", target + 1, n_close, n_ok, on_target, ctx));
+    }
+    Outcome::pass(true).label(match c.timing % 3 {
+        0 => "close+close-ok-in-one-segment",
+        1 => "close-then-close-ok",
+        _ => "close-ok-after-client-close-ok",
+    })
+}
+
+fn xstrat(_t: Tier) -> BoxedStrategy<XCase> {
+    (2u8..=4, any::<u8>(), any::<u8>(), any::<u8>(), 200u16..600, "[a-zA-Z -]{0,20}", 0u8..3, any::<u64>())
+        .prop_map(|(channels, target, calls, before, code, text, timing, salt)| XCase {
+            channels,
+            target,
+            calls,
+            before,
+            code,
+            text,
+            timing,
+            salt,
+        })
+        .boxed()
+}
+
 pub fn parts_c09() -> Vec<Box<dyn PartDyn>> {
     vec![Box::new(Part::<Case> {
         name: "e2e",
@@ -779,5 +1026,18 @@ pub fn parts_c09() -> Vec<Box<dyn PartDyn>> {
         confirm_runs: 2,
             fuzz: None,
             watchdog_s: 60,
+    }),
+    Box::new(Part::<XCase> {
+        name: "crossing",
+        rule: "2-4 channels on threads making synchronous calls while the owner of channel n calls Channel::close and the server, as if it had closed n at the same moment, answers with Channel.Close(n, code, text) followed by the CloseOk for the client's Close (one segment / two segments / CloseOk only after the client's CloseOk: the close-collision rule of AMQP 0-9-1, RabbitMQ's behaviour); oracle: close() on n returns ServerClosedChannel{n, code, text} (or Ok), every call on every other channel succeeds, n carries exactly one Close and one CloseOk from the client, open_channel(Some(n)) works again, Connection::close is Ok, nothing panics or hangs; every case is non-trivial (the collision happens by construction); distinct by case hash",
+        cases: |t| t.pick(600, 12_000),
+        threads: 12,
+        strategy: xstrat,
+        exec: exec_crossing,
+        enumerate: None,
+        shrink_budget: 60,
+        confirm_runs: 2,
+        fuzz: None,
+        watchdog_s: 60,
     })]
 }
